@@ -568,6 +568,27 @@ func (x *lcRunner) exec(o lcOp) {
 	key := func(k int) *btcec.PublicKey { return e.accts[k].key.PubKey }
 	completes := o.Op == "complete" || o.Op == "finalize" || o.Op == "spend2" || o.Op == "spendc" ||
 		((o.Op == "spend" || o.Op == "spendd") && (o.Kind == "latest" || o.Kind == "staged" || o.Kind == "foreign"))
+	// an expiry-path spend (sweep, or the account's own expiry close) is not a batch spend: it
+	// must close the account and leave a staged batch alone
+	expirySpend := false
+	if o.Op == "spend" || o.Op == "spendd" {
+		switch o.Kind {
+		case "sweep":
+			expirySpend = true
+		case "latest":
+			if a, err := e.db.Account(key(o.K)); err == nil && a.LatestTx != nil {
+				for _, in := range a.LatestTx.TxIn {
+					if in.PreviousOutPoint == a.OutPoint && (poolscript.IsExpirySpend(in.Witness) ||
+						poolscript.IsTaprootExpirySpend(in.Witness)) {
+						expirySpend = true
+					}
+				}
+			}
+		}
+	}
+	if expirySpend {
+		completes = false
+	}
 	if completes && e.staleBatch && len(e.batchAccts) > 0 {
 		if e.allowStale {
 			e.staleApplied = true
@@ -995,6 +1016,10 @@ func (x *lcRunner) exec(o lcOp) {
 		if before.state[i] != st || before.rec[i] == "" {
 			r.Count(fmt.Sprintf("state/%s", st))
 		}
+	}
+	if x.bad == "" && expirySpend && len(batchBefore) > 0 && len(e.batchAccts) == 0 && res == "ok" {
+		x.fail(fmt.Sprintf("after op #%d (%s): an expiry-path spend of account %d committed the staged batch of accounts %v",
+			len(x.hist)-1, line, o.K, batchBefore), "C08/expiry-spend-completed-batch")
 	}
 	if x.bad == "" && staleSpendOf != 0 {
 		after := e.snapshot()
